@@ -41,7 +41,7 @@ META = {
                     "ASCII path strings (no unicode normalisation, no non-UTF-8 bytes)"],
     "rule": ("paths: all pairs over a pool of spellings, all subsets of the 6 paths over {a,b} depth<=2, all sets of <=2 of the 39 "
              "paths over {a,b,ab} depth<=3, random sets with odd spellings; lines: all strings over {x,LF} up to the tier's "
-             "length and ALL their chunkings, plus empty chunks; dates: grid of integer seconds x fractions x offsets "
+             "length (5 quick, 6 thorough) and ALL their chunkings, plus empty chunks; dates: grid of integer seconds x fractions x offsets "
              "-14h..+14h in 15-minute steps, plus boundary years, carries, negative times, non-minute offsets; "
              "non-trivial = more than one path / a LF present / non-zero fraction or offset"),
 }
@@ -129,12 +129,12 @@ def cases(rng, tier):
         ps = [a, c]
         rng.shuffle(ps)
         yield {"kind": "minsel", "ps": ps}
-    for _ in range(300 if quick else 4000):
+    for _ in range(300 if quick else 2000):
         src = p39 if rng.random() < 0.6 else p39[:12] + POOL
         ps = [rng.choice(src) for _ in range(rng.randint(2, 9))]
         yield {"kind": "minsel", "ps": ps}
     # ---- is_inside_any
-    for _ in range(150 if quick else 2000):
+    for _ in range(150 if quick else 1000):
         src = p39[:12] + POOL
         yield {"kind": "inside_any", "ds": [rng.choice(src) for _ in range(rng.randint(0, 4))], "f": rng.choice(src)}
     # ---- splitpath / joinpath / pathjoin
@@ -146,19 +146,19 @@ def cases(rng, tier):
             yield {"kind": "joinpath", "ps": list(t)}
             if n:
                 yield {"kind": "pathjoin", "ps": list(t)}
-    for _ in range(100 if quick else 2000):
+    for _ in range(100 if quick else 800):
         n = rng.randint(3, 5)
         t = [rng.choice(segpool if rng.random() < 0.3 else SEGS) for _ in range(n)]
         yield {"kind": "joinpath", "ps": t}
         yield {"kind": "pathjoin", "ps": t}
     # ---- lines: all strings over {x, LF} up to maxlen and ALL their chunkings
-    maxlen = 5 if quick else 7
+    maxlen = 5 if quick else 6
     for n in range(maxlen + 1):
         for t in itertools.product(b"x\n", repeat=n):
             s = bytes(t)
             for cs in _compositions(s):
                 yield {"kind": "lines", "cs": cs}
-    for _ in range(300 if quick else 6000):
+    for _ in range(300 if quick else 3000):
         n = rng.randint(0, 12)
         s = bytes(rng.choice(b"xy\n\n\r") for _ in range(n))
         cs = rng.choice(list(_compositions(s))) if n <= 10 else [s[:4], s[4:9], s[9:]]
@@ -181,9 +181,9 @@ def cases(rng, tier):
     else:
         for s in secs_grid:
             for fr in fracs:
-                for off in offs[::4] + [None]:
+                for off in offs[::8] + [None]:
                     yield _date(s + fr, off)
-    for _ in range(400 if quick else 8000):
+    for _ in range(400 if quick else 4000):
         r = rng.random()
         if r < 0.5:
             t = rng.uniform(-3e9, 5e9)
@@ -208,7 +208,7 @@ def cases(rng, tier):
     frs = [".5", ".25", ".125", ".0", ".000000000", ".001953125", ".75", ".999999999", ".000000001", ".123456789", ".1", "."]
     ofs = ["+0000", "-0000", "+0100", "-0330", "+0530", "+1400", "-1200", "+0159", "-0061", "0", "+1", "-5", "+10000",
            "+123456", "", "+", "-", "0x10", "+01:00", " +0100"]
-    for _ in range(300 if quick else 6000):
+    for _ in range(300 if quick else 3000):
         y = rng.choice([0, 1, 1600, 1900, 1969, 1970, 2000, 2004, 2023, 2100, 2400, 9999, rng.randint(0, 9999)])
         mo = rng.choice([1, 2, 2, 3, 4, 6, 9, 11, 12, rng.randint(0, 13)])
         d = rng.choice([1, 28, 29, 30, 31, rng.randint(0, 32)])
